@@ -17,14 +17,15 @@ MAXPAGES = 6
 SEG_AT = 65000
 
 
-def harness_module(imported=False):
+def harness_module(imported=False, maxpages=None):
     """imported=True: the shared memory is imported from the embedder (the wasi-threads shape) instead of defined"""
     m = Module()
     T = m.type_index
+    maxpages = maxpages or MAXPAGES
     if imported:
-        m.imports.append((b'env', b'memory', 'memory', (1, MAXPAGES, True)))
+        m.imports.append((b'env', b'memory', 'memory', (1, maxpages, True)))
     else:
-        m.memory = (1, MAXPAGES, True)
+        m.memory = (1, maxpages, True)
     m.exports.append((b'memory', 'memory', 0))
 
     def add(name, ps, rs, body):
